@@ -9,17 +9,33 @@ def owners(rows):
     return sorted(u for u, s in rows.items() if not s.get("deleted") and "O" in eff(s["want"], s["given"]))
 
 
+def sessions_of(sc):
+    """sid -> user; taken from the head lines when the scenario comes from a replay/corpus file."""
+    if sc.sessions:
+        return sc.sessions
+    res = {}
+    for l in sc.head:
+        w = l.split()
+        if w and w[0] == "sess":
+            res[int(w[1])] = int(w[2])
+    return res
+
+
 def monitor(sc, views):
+    """The laws of C06 on the implementation's trace.  Fault-free prefix: all laws; after the first
+    injected store fault only the counting laws, tagged "-after-store-fault"."""
     res = []
     prev = None
     faulted = False
+    sessions = sessions_of(sc)
     for k, v in enumerate(views):
         fault, kind, args = sc.ops[k]
         if fault != "N":
             faulted = True
-        actor = sc.sessions.get(args[0]) if args else None
+        actor = sessions.get(args[0]) if args else None
         ow = owners(v.subs)
         tag = "-after-store-fault" if faulted else ""
+        # exactly one effective owner, equal to the owner field, in the store and in the cache
         if len(ow) != 1:
             res.append(("stored-owner-count-%d%s" % (len(ow), tag), k, "stored subscriptions have %d effective owners %s" % (len(ow), ow)))
         elif v.topic.get("owner") != ow[0]:
@@ -32,13 +48,20 @@ def monitor(sc, views):
                 res.append(("cached-owner-field" + tag, k, "topic.owner=%s but the cached effective owner is %s" % (v.cache.get("owner"), cw[0])))
         if prev is not None and not faulted:
             po = owners(prev.subs)
-            if len(po) == 1 and len(ow) == 1:
+            if len(po) == 1:
                 o = po[0]
                 before, after = prev.subs[o], v.subs.get(o)
-                if ow[0] == o:
-                    # no request by another user removes, bans or demotes the owner
-                    if after is None or after["deleted"] or "O" not in eff(after["want"], after["given"]) or "J" not in eff(after["want"], after["given"]):
-                        res.append(("owner-demoted", k, "owner %d removed/banned/demoted by %s of user %s" % (o, kind, actor)))
+                still = o in ow
+                moved = len(ow) == 1 and ow[0] != o
+                if not moved:
+                    if actor != o:
+                        # no request by another user removes, bans or demotes the owner
+                        lost_j = still and "J" in eff(before["want"], before["given"]) and "J" not in eff(after["want"], after["given"])
+                        if not still or lost_j:
+                            res.append(("owner-demoted-by-other", k, "owner %d removed/banned/demoted by %s of user %s" % (o, kind, actor)))
+                    elif not still:
+                        # the owner cannot unsubscribe or give up ownership except by transfer
+                        res.append(("owner-gives-up-ownership", k, "owner %d lost ownership by his own %s with no successor" % (o, kind)))
                 else:
                     n = ow[0]
                     # ownership moved: only by acceptance of a grant made by the owner
@@ -48,10 +71,10 @@ def monitor(sc, views):
                         res.append(("transfer-needs-grant", k, "user %d became owner without O in the previous grant" % n))
                     if after is not None and not after["deleted"] and ("O" in after["want"] or "O" in after["given"]):
                         res.append(("previous-owner-loses-ownership", k, "previous owner %d keeps O: %s/%s" % (o, after["want"], after["given"])))
-            # O is granted only by the owner
+            # O is granted only by the owner (a re-subscription restores the previous grant, deleted row included)
             for u, s in v.subs.items():
                 p = prev.subs.get(u)
-                had = p is not None and "O" in p["given"] and not p["deleted"]
+                had = p is not None and "O" in p["given"]
                 if "O" in s["given"] and not s["deleted"] and not had and len(po) == 1:
                     if actor != po[0] and not (actor == u and ow and ow[0] == u):
                         res.append(("grant-ownership-owner-only", k, "O appeared in the grant of user %d by %s of user %s (owner %d)" % (u, kind, actor, po[0])))
